@@ -32,6 +32,9 @@ one of the fixed prelude of Gen/KeysGen.v, imported, not repeated.  In addition:
   * the abstract methods of DataflowTransactionContext are the parameters of the Section, as in Model/Analysis.v:
     self._universal_set(key) = univ, self._null_set(key) = null, self._intersection(key, a, b) = inter a b,
     self._union(key, a, b) = union a b (the `key` argument must be the method's own `key`).
+    A function that uses one of the same-typed parameters univ / null (union / inter) takes both (a dead `let`,
+    tcommon.pin_twins): otherwise the Section discharge would give a function that starts from the universal set the
+    same type as one that starts from the null set, and a positional lemma could not tell them apart.
 
 Fail-closed: every statement kind, expression kind, attribute name, call name and variable type that is not whitelisted
 below raises TranslateError.
@@ -40,7 +43,7 @@ import ast
 import os
 import sys
 
-from tcommon import TranslateError, fail, parse, strip_doc, T
+from tcommon import TranslateError, fail, parse, strip_doc, pin_twins, T
 from translate_keys import check_imports, indent, same_text
 from translate_asserted import (
     seq,
@@ -843,7 +846,8 @@ def emit_graph(outdir):
         signature(gp, fn, [("self", None), ("key", "str"), ("block", "'BasicBlock'"), (dname, "Dict['BasicBlock', Any]")], "Any")
         env = Env(gp, {"block": BLK, dname: DICT}, "domain", DOM, gbound)
         w(f"  (* {GEN_REL}: DataflowTransactionContext.{name} (line {fn.lineno}) *)")
-        w(f"  Definition {g} (block : nat) ({dname} : state T) : py T :=\n{indent(block(env, fn.body, None), 4)}.")
+        # a definition that uses one of univ / null (union / inter) takes both: see tcommon.pin_twins
+        w(f"  Definition {g} (block : nat) ({dname} : state T) : py T :=\n{indent(pin_twins(block(env, fn.body, None)), 4)}.")
         w("")
     w("End GraphGenDomain.")
     os.makedirs(outdir, exist_ok=True)
